@@ -14,7 +14,7 @@ def run(ck, writers=('encap', 'encap_frag', 'encap_ext'), pid_rules='C06', floor
         B, P = env['B'], env['P']
         # ---- R1: 12-bit length at every header call
         for r in a.events('call'):
-            if r.data[1] != GEN_HDR or r.site[0] != ENC + wname:
+            if r.data[1] != GEN_HDR:
                 continue
             n_hdr += 1
             W, g = r.data[5], r.data[3][2]
@@ -96,6 +96,7 @@ def run(ck, writers=('encap', 'encap_frag', 'encap_ext'), pid_rules='C06', floor
             if not W.store.entails(le(end, g[1] + 2)):
                 in_loop_region = wname == 'encap_ext' and any(x in a.I.loop_atoms for x in end.atoms())
                 if in_loop_region:
+                    ck.declined_instances += 1
                     ck.declined.append({'fn': wname, 'site': site_str(row['site']), 'obligation': f"write end {end.pretty()} <= packet length", 'reason': 'offset accumulated in the extension loops'})
                 else:
                     ck.finding(f'{pid_rules}.R3', ENC + wname, f"write-beyond:{part[0]}:{row['src'][0]}", f"{wname} ({part[0]}): write of {row['src'][0]} ends at {end.pretty()}, not shown within the packet length", row['site'])
@@ -104,8 +105,11 @@ def run(ck, writers=('encap', 'encap_frag', 'encap_ext'), pid_rules='C06', floor
             # field order
             kind = row['src'][0]
             if wname == 'encap_ext' and kind in ('be?', 'arr?', 'seq?', '?', 'ptype', 'pdu', 'value?'):
-                # extension area: ids / data / displaced protocol type / payload after the chain — C13
-                ck.discharged += 1
+                # extension area: ids / data / displaced protocol type / payload after the chain: layout not decided (C13)
+                ck.declined_instances += 1
+                dk = {'fn': wname, 'site': site_str(row['site']), 'obligation': f"field at the ETSI offset for a write of kind {kind}", 'reason': 'extension area of encap_ext: offsets accumulated in the extension loops'}
+                if dk not in ck.declined:
+                    ck.declined.append(dk)
                 continue
             spec = {n: (o, l) for n, o, l in spec_fields(part[0], L)}
             if kind not in spec:
